@@ -120,7 +120,11 @@ func runWith(over ...string) string {
 // exhaustiveGS: every sequence of `depth` runs over a curated alphabet (one run per way a step can
 // go: each reply shape of the CA, each answer of the agent to the challenge, a failure or a closed
 // connection at each agent operation), from each starting agent.
-func exhaustiveGS(depth int, wide bool) [][]string {
+// level 0: the core alphabet (every way a step of the regular run can go) for the deepest enumeration;
+// 1: plus several-request keys, long names, lying agents, client claims, look-alike login names;
+// 2: plus connection loss at every request, the real signer, further handlers
+func exhaustiveGS(depth int, level int) [][]string {
+	wide := level >= 2
 	alphabet := []string{runWith(), runWith("ca", "certs:2:2"), runWith("ca", "mixed:1:0"), runWith("ca", "mixed:0:1"), runWith("ca", "plain"), runWith("ca", "foreign"),
 		runWith("ca", "certs:0:0"), runWith("ca", "err"), runWith("ca", "panic"), runWith("ca", "-"), runWith("ag", "fail"), runWith("ag", "replay"), runWith("ag", "okey:L2"),
 		runWith("ag", "odata"), runWith("ag", "empty"), runWith("pub", "key:L3"), runWith("pub", "empty"), runWith("hk", "1"), runWith("pol", "NSOK"), runWith("algo", "99"),
@@ -131,6 +135,8 @@ func exhaustiveGS(depth int, wide bool) [][]string {
 			alphabet = append(alphabet, runWith("closeat", strconv.Itoa(k), "ca", "certs:2:2"))
 		}
 	}
+	core := append([]string{}, alphabet...)
+	core = append(core, runWith("hs", "gkey:2:-:0", "ca", "certs:1:1|panic"), runWith("ag", "honest+le"), runWith("cl", "ff+t2s+sudo+ver+user+exts+sig"))
 	// several requests for one key: every reply shape at every position
 	for _, ca := range []string{"panic", "err", "certs:1:1|panic", "certs:1:1|err", "certs:1:1|certs:1:1", "certs:1:1|plain", "certs:1:1"} {
 		alphabet = append(alphabet, runWith("hs", "gkey:2:-:0", "ca", ca))
@@ -166,6 +172,9 @@ func exhaustiveGS(depth int, wide bool) [][]string {
 		// an agent that already holds 70 unrelated identities
 		starts = append(starts, strings.Join(pad, ",")+",L1:-")
 	}
+	if level == 0 {
+		alphabet = core
+	}
 	var sets [][]string
 	var rec func(prefix []string)
 	rec = func(prefix []string) {
@@ -186,11 +195,11 @@ func exhaustiveGS(depth int, wide bool) [][]string {
 func genGS(g *hx.Gen, out *hx.Out) {
 	var sets [][]string
 	if os.Getenv("VERIF_TIER") == "thorough" {
-		sets = append(sets, exhaustiveGS(2, true)...)
-		sets = append(sets, exhaustiveGS(3, false)...)
+		sets = append(sets, exhaustiveGS(2, 2)...)
+		sets = append(sets, exhaustiveGS(3, 0)...)
 	} else {
-		sets = append(sets, exhaustiveGS(1, true)...)
-		sets = append(sets, exhaustiveGS(2, false)...)
+		sets = append(sets, exhaustiveGS(1, 2)...)
+		sets = append(sets, exhaustiveGS(2, 1)...)
 	}
 	for i := 0; i < *hx.Count; i++ {
 		var init []string
